@@ -136,6 +136,54 @@ class Tree:
                             mod.consts[st.target.id] = st.value
                 self.modules[rel] = mod
                 _PARSED[(path, sha)] = mod
+        if os.environ.get("SA_NO_CANON") != "1":
+            self._positional_calls()
+
+    def _positional_calls(self):
+        """Calls of repository functions get one argument form: keyword arguments that name the
+        next positional parameters are moved into positional position (`f(a, vel=v)` and
+        `f(a, v)` are then the same node). Only for names all of whose definitions agree on the
+        parameter list and take no *args / positional-only parameters."""
+        sigs = {}
+        for rel, m in self.modules.items():
+            for q, f in m.funcs.items():
+                ps = [a.arg for a in f.args.args]
+                is_method = "." in q and bool(ps) and ps[0] in ("self", "cls")
+                special = bool(f.args.posonlyargs or f.args.vararg)
+                sigs.setdefault(f.name, set()).add((tuple(ps[1:] if is_method else ps), is_method, special))
+        table = {}
+        for name, ss in sigs.items():
+            if len(ss) == 1 and not name.startswith("__"):
+                ps, is_method, special = next(iter(ss))
+                if not special:
+                    table[name] = (ps, is_method)
+        for rel, m in self.modules.items():
+            if getattr(m, "_kwnorm", False):
+                continue
+            m._kwnorm = True
+            for c in ast.walk(m.tree):
+                if not isinstance(c, ast.Call) or not c.keywords or any(isinstance(a, ast.Starred) for a in c.args):
+                    continue
+                nm = c.func.attr if isinstance(c.func, ast.Attribute) else (c.func.id if isinstance(c.func, ast.Name) else None)
+                if nm not in table or any(k.arg is None for k in c.keywords):
+                    continue
+                ps, is_method = table[nm]
+                if is_method != isinstance(c.func, ast.Attribute):
+                    continue
+                kws = {k.arg: k for k in c.keywords}
+                if not set(kws) <= set(ps):
+                    continue
+                i = len(c.args)
+                moved = False
+                while i < len(ps) and ps[i] in kws:
+                    k = kws.pop(ps[i])
+                    k.value._parent = c
+                    c.args.append(k.value)
+                    c.keywords.remove(k)
+                    i += 1
+                    moved = True
+                if moved:
+                    c._kw_moved = True
 
     # ------------------------------------------------------------------ index
     def mod(self, rel: str) -> Module:
